@@ -31,8 +31,15 @@ import (
 
 func c08Setup(t *testing.T) ([]kit.Case, *kit.Reporter, int, int) {
 	logx.Disable()
-	// C01 is not under test here: the breaker inside redis.Redis never rejects
-	mathx.SetVerifCoin(func(float64) (bool, bool) { return false, true })
+	if c08RealBreaker() {
+		// the real breaker with its real coin: on a healthy Redis neither a denial (the token script's
+		// Nil reply) nor an OverQuota code is a failure, so the breaker has nothing to count, never
+		// consults its coin and the behaviour stays deterministic
+		mathx.SetVerifCoin(nil)
+	} else {
+		// C01 is not under test here: the breaker inside redis.Redis never rejects
+		mathx.SetVerifCoin(func(float64) (bool, bool) { return false, true })
+	}
 	cases, err := kit.LoadCases(kit.Env("VERIF_CASES", ""))
 	if err != nil {
 		t.Fatal(err)
@@ -43,6 +50,8 @@ func c08Setup(t *testing.T) ([]kit.Case, *kit.Reporter, int, int) {
 	}
 	return cases, rep, kit.EnvInt("VERIF_SHARD", 0), kit.EnvInt("VERIF_SHARDS", 1)
 }
+
+func c08RealBreaker() bool { return kit.Env("VERIF_REAL_BREAKER", "") != "" }
 
 func c08CodeName(code int) string {
 	switch code {
@@ -193,6 +202,9 @@ func TestVerifC08Period(t *testing.T) {
 	for _, c := range cases {
 		if c.Index%shards != shard {
 			continue
+		}
+		if c08RealBreaker() {
+			store = redis.New(s.Addr()) // a breaker without history for every behaviour
 		}
 		rep.Put(runC08PeriodRetry(c, cs, store, rep))
 	}
@@ -610,6 +622,9 @@ func TestVerifC08Token(t *testing.T) {
 	for _, c := range cases {
 		if c.Index%shards != shard {
 			continue
+		}
+		if c08RealBreaker() {
+			store = redis.New(s.Addr()) // a breaker without history for every behaviour
 		}
 		rep.Put(runC08TokenRetry(c, cs, store, rep))
 	}
